@@ -25,7 +25,7 @@ ASSUMPTIONS = [
     "the first re-read l1 is the reference: precision lost by the chosen fmt in the first write is not drift",
     "inputs lasio cannot read, or whose first write() raises, are outside 'any input that lasio can read and then write' and are counted by reason",
 ]
-REQUIRED = ["histories_completed", "corpus_histories_completed", "generated_histories_completed", "mutated_histories_completed", "cycle_comparisons"]
+REQUIRED = ["histories_completed", "corpus_histories_completed", "generated_histories_completed", "mutated_histories_completed", "cycle_comparisons", "histories_with_declared_version_1.0", "histories_with_declared_version_2.1", "histories_with_declared_version_3.0"]
 SOFT_DEADLINE = {"quick": 100, "thorough": 1500}
 LEVEL_TEXT = "Exploration of load/save histories: every cycle's result is compared with the previous one and with drift detectors."
 LEVEL_NOTE = "Trusts the canonical snapshot; inputs outside corpus/generators/mutations are not covered."
@@ -33,7 +33,7 @@ TECHNIQUE = "runtime monitoring: history checker over recorded read/write cycles
 
 OPTSETS = [{}, {"version": 1.2}, {"version": 2, "wrap": True}, {"fmt": "%.2f"}, {"wrap": True, "data_width": 40, "fmt": "%.3f"},
            {"mnemonics_header": True, "data_section_header": "~A"}, {"version": 1.2, "wrap": False, "len_numeric_field": -1}]
-MUTATIONS = ["none", "dup_curve", "blank_curve", "dup_param", "unit_point1in", "empty_values", "long_fields", "blank_param", "empty_step", "dup_null"]
+MUTATIONS = ["none", "dup_curve", "blank_curve", "dup_param", "unit_point1in", "empty_values", "long_fields", "blank_param", "empty_step", "dup_null", "vers_1.0", "vers_2.1", "vers_3.0", "vers_1.2"]
 
 
 def corpus():
@@ -52,6 +52,8 @@ def grid(tier):
             yield {"input": fn, "mutation": "dup_null", "opts": 1}
     for k in range(20):
         yield {"input": "gen", "seed": 1000 + k, "mutation": "dup_null", "opts": [1, 6][k % 2]}
+    for k, v in enumerate(["vers_1.0", "vers_1.2", "vers_2.1", "vers_3.0"] * 6):
+        yield {"input": "gen", "seed": 2000 + k, "mutation": v, "opts": [0, 3, 5, 4][k % 4]}      # option sets that leave version=None
     for k in range(60 if tier == "quick" else 400):
         yield {"input": "gen", "seed": k, "mutation": "none", "opts": k % len(OPTSETS)}
 
@@ -62,7 +64,7 @@ def n_random(tier):
 
 def random_case(rng, tier):
     if rng.random() < 0.5:
-        return {"input": "gen", "seed": rng.randrange(10 ** 9), "mutation": "none", "opts": rng.randrange(len(OPTSETS))}
+        return {"input": "gen", "seed": rng.randrange(10 ** 9), "mutation": rng.choice(["none", "none", "none", "vers_1.0", "vers_2.1", "vers_3.0"]), "opts": rng.randrange(len(OPTSETS))}
     return {"input": rng.choice(corpus()), "mutation": rng.choice(MUTATIONS), "opts": rng.randrange(len(OPTSETS))}
 
 
@@ -104,6 +106,9 @@ def mutate(lasio, las, mutation):
             d = np.asarray(c.data)
             if d.dtype.kind == "f" and np.isnan(d).any():
                 c.data = np.where(np.isnan(d), 1.5, d)
+    elif mutation.startswith("vers_"):
+        # every version number defaults.ORDER_DEFINITIONS tabulates, declared by the object itself (write(version=None) keeps it)
+        las.version["VERS"].value = float(mutation[5:])
     elif mutation == "long_fields":
         las.well.append(lasio.HeaderItem("LONGMNEMONIC_LONGMNEMONIC_X", "averyveryverylongunit", "v" * 120, "d " * 80))
     return las
@@ -169,6 +174,8 @@ def run_case(case, ctx):
     if len(set(lens)) > 1:
         ctx.violation("text-length-drifts", "output length over cycles: %r" % lens, detail)
     ctx.count("histories_completed")
+    if case["mutation"].startswith("vers_") and "version" not in opts:
+        ctx.count("histories_with_declared_version_" + case["mutation"][5:])
     ctx.count(kind + "_histories_completed")
     ctx.case_done([case["input"], case.get("seed"), case["mutation"], case["opts"]], nontrivial=True)
     ctx.sample({"input": case["input"], "mutation": case["mutation"], "opts": opts, "cycles": cycles, "output_bytes": lens}, limit=4)
